@@ -1,12 +1,13 @@
-SPECIFICATION SpecPOR
+\* Every interleaving, 3 executors, cache size 1 (checks/c14.py generates its configurations; this is "full_lru1").
+SPECIFICATION Spec
 CONSTANTS
   Execs = {"e1", "e2", "e3"}
   Arity <- MCArity
-  MaxLRU = 2
-  MaxForget = 2
+  MaxLRU = 1
+  MaxForget = 1
   MaxFail = 1
-  Cancellable = {"e2"}
+  Cancellable = {}
   UniqueIds = TRUE
-  Plans <- PlansAll
+  Plans <- PlansCore
 INVARIANTS Bounded PreparedOnce FailedNotCached FailedReported ExecAttribution ArityChecked Justified NoStuck
 CHECK_DEADLOCK FALSE
